@@ -923,7 +923,7 @@ def observe(chk, key, what):
 # the notes of the evidence).  They are recorded, not judged, until a disposition (fix / known finding / out of scope) is made;
 # every other key of these streams fails.
 OBSERVE_ONLY = {
-    "repr:container-result:groups:list of tuples", "repr:container-result:groups:partial list of tuples",
+    # (groups given as tuples trained another model: repaired in /repo 1a7c87e, now a hard expectation)
     "repr:affinity-rejected:list of lists:SparseLinearMMD.path", "repr:affinity-rejected:list of lists:SparseMLPMMD.path",
     "boundary:in-domain-rejected:draw_gmm: one component",
 }
@@ -1079,6 +1079,14 @@ def stream_repr_containers(chk, i, rng):
             else:
                 chk.fail(f"repr:container-rejected:{p}", f"{name}({p} as {label}).{ep} raises {type(exc).__name__}: {str(exc)[:140]} although the same values as {type(mk_ref()).__name__} are accepted", replay, layer="L3")
         elif ep == "fit":
+            if p == "groups":
+                # check_groups itself: every group comes back as a list of the same integers, completed; the caller's object is untouched
+                out = check_groups(v, X.shape[1])
+                want = spec_groups([[int(x) for x in g] for g in v], X.shape[1])
+                if not all(type(g) is list for g in out) or [[int(x) for x in g] for g in out] != want or out is v:
+                    chk.fail(f"repr:check_groups:{label}", f"check_groups({v!r}, {X.shape[1]}) = {out!r}: expected fresh lists {want}", replay, layer="L3")
+                if not all(type(g) is list for g in est.groups_) or [[int(x) for x in g] for g in est.groups_] != want:
+                    chk.fail(f"repr:groups_:{label}", f"{name}({p} as {label}).fit: groups_ = {est.groups_!r}, expected lists {want}", replay, layer="L3")
             d = same_signature(fit_signature(ref), fit_signature(est))
             if d:
                 fail_or_observe(chk, f"repr:container-result:{p}:{label}", f"{name}({p} as {label}).fit gives a different model than the reference representation: {d}", replay)
